@@ -21,6 +21,8 @@ pub trait World: Send {
     fn sleep(&mut self, d: Duration);
     /// Everything `print!` / `println!` would have written to stdout.
     fn print(&mut self, s: &str);
+    /// `set_read_timeout` on a stream (a world without timeouts may ignore it).
+    fn set_read_timeout(&mut self, _id: u64, _d: Option<Duration>) {}
 }
 
 static WORLD: Mutex<Option<Box<dyn World>>> = Mutex::new(None);
@@ -72,7 +74,8 @@ impl io::Read for &Stream {
 }
 
 impl Stream {
-    pub fn set_read_timeout(&self, _d: Option<Duration>) -> io::Result<()> {
+    pub fn set_read_timeout(&self, d: Option<Duration>) -> io::Result<()> {
+        with(|w| w.set_read_timeout(self.0, d));
         Ok(())
     }
     pub fn set_write_timeout(&self, _d: Option<Duration>) -> io::Result<()> {
